@@ -17,6 +17,16 @@ pub enum Schedule {
     InterruptedAt(usize),
     /// call i returns Ok(0) forever from there on (sink is full)
     ZeroAt(usize),
+    /// call i accepts exactly `take` bytes (fewer than offered when possible, at least 1)
+    ShortTake(usize, usize),
+    /// call i accepts `take` bytes and the very next call returns ErrorKind::Interrupted
+    ShortThenInterrupted(usize, usize),
+    /// calls i and i+1 both accept only `take` bytes
+    ShortThenShort(usize, usize),
+    /// calls i and i+1 both return ErrorKind::Interrupted
+    InterruptedTwice(usize),
+    /// at most k bytes per call, and every `period`-th call is interrupted instead
+    ChunkWithInterrupts(usize, usize),
 }
 
 #[derive(Clone, Copy, Debug, PartialEq, Eq)]
@@ -46,6 +56,10 @@ pub struct FaultSink {
     pub calls: usize,
     pub fault_hit: bool,
     pub flushes: usize,
+    /// once more than this many bytes have been accepted every call fails hard: a writer
+    /// that spins (re-sending data after every interruption, say) is cut off with an error
+    /// instead of running until a watchdog fires
+    pub limit: usize,
 }
 
 impl FaultSink {
@@ -55,7 +69,7 @@ impl FaultSink {
         s
     }
     pub fn new(schedule: Schedule) -> FaultSink {
-        FaultSink { gather_vectored: false, vectored_calls: 0, schedule, accepted: vec![], events: vec![], calls: 0, fault_hit: false, flushes: 0 }
+        FaultSink { gather_vectored: false, vectored_calls: 0, schedule, accepted: vec![], events: vec![], calls: 0, fault_hit: false, flushes: 0, limit: usize::MAX }
     }
     pub fn nonretryable_failures(&self) -> usize {
         self.events.iter().filter(|e| e.outcome == Outcome::Failed).count()
@@ -69,6 +83,10 @@ impl Write for FaultSink {
         let pos = self.accepted.len();
         let mut take = buf.len();
         let mut outcome = None;
+        if self.accepted.len() > self.limit || self.calls > self.limit.saturating_mul(4) {
+            self.events.push(Event { index: i, offered: buf.len(), outcome: Outcome::Failed, pos });
+            return Err(io::Error::new(io::ErrorKind::Other, "sink limit exceeded: the writer does not terminate"));
+        }
         match self.schedule {
             Schedule::Full => {}
             Schedule::Chunk(k) => {
@@ -93,6 +111,44 @@ impl Write for FaultSink {
                 if i == at {
                     outcome = Some(Outcome::Interrupted);
                     self.fault_hit = true;
+                }
+            }
+            Schedule::ShortTake(at, t) => {
+                if i == at && buf.len() >= 2 {
+                    take = t.clamp(1, buf.len() - 1);
+                    self.fault_hit = true;
+                }
+            }
+            Schedule::ShortThenInterrupted(at, t) => {
+                if i == at && buf.len() >= 2 {
+                    take = t.clamp(1, buf.len() - 1);
+                    self.fault_hit = true;
+                } else if i == at + 1 {
+                    outcome = Some(Outcome::Interrupted);
+                    self.fault_hit = true;
+                }
+            }
+            Schedule::ShortThenShort(at, t) => {
+                if (i == at || i == at + 1) && buf.len() >= 2 {
+                    take = t.clamp(1, buf.len() - 1);
+                    self.fault_hit = true;
+                }
+            }
+            Schedule::InterruptedTwice(at) => {
+                if i == at || i == at + 1 {
+                    outcome = Some(Outcome::Interrupted);
+                    self.fault_hit = true;
+                }
+            }
+            Schedule::ChunkWithInterrupts(k, period) => {
+                if period > 0 && i % period == period - 1 {
+                    outcome = Some(Outcome::Interrupted);
+                    self.fault_hit = true;
+                } else {
+                    if buf.len() > k {
+                        self.fault_hit = true;
+                    }
+                    take = take.min(k);
                 }
             }
             Schedule::ZeroAt(at) => {
